@@ -222,6 +222,16 @@ def handleGetUser (fs : List Field) (st : State H) : State H × Out H :=
   | none => (st, .errReply)
   | some a => (st, .user a.name (obfuscate (fieldData 105 fs)) a.hash a.access)
 
+/-- `loginToRename`: the de-obfuscated data field (101) of a sub-record, "" when absent. -/
+def loginToRename (fs : List Field) : Login :=
+  match getField 101 fs with
+  | some d => obfuscate d
+  | none => []
+
+/-- `accountToUpdate`: the login looked up — the data field's when present and non-empty, else the login field's. -/
+def accountToUpdate (fs : List Field) (userLogin : Login) : Login :=
+  if loginToRename fs ≠ [] then loginToRename fs else userLogin
+
 /-- One sub-record of HandleUpdateUser (349): `none` = continue with the next record. -/
 def updateRec (env : Env H) (fs : List Field) (st : State H) : State H × Option (Out H) :=
   if fs.length = 1 then
@@ -232,15 +242,11 @@ def updateRec (env : Env H) (fs : List Field) (st : State H) : State H × Option
       | (true, st') => (st', none)
       | (false, _) => (st, some .silent)
   else
-    let loginToRename := match getField 101 fs with
-      | some d => obfuscate d
-      | none => []
     match getField 105 fs with
     | none => (st, some .panic)
     | some lg =>
       let userLogin := obfuscate lg
-      let accountToUpdate := if loginToRename ≠ [] then loginToRename else userLogin
-      match st.mem.get accountToUpdate with
+      match st.mem.get (accountToUpdate fs userLogin) with
       | some acc =>
         match getField 102 fs with
         | none => (st, some .panic)
@@ -296,17 +302,34 @@ def run (env : Env H) (st : State H) (ops : List Op) : State H := ops.foldl (fun
 
 -- ---------------------------------------------------------------- legality of requests
 
-/-- the logins a sub-record of update-user names are legal file names -/
+/-- `p` holds of the value when there is one -/
+def optAll (p : Bytes → Prop) : Option Bytes → Prop
+  | some d => p d
+  | none => True
+
+instance (p : Bytes → Prop) [DecidablePred p] (o : Option Bytes) : Decidable (optAll p o) := by
+  cases o <;> unfold optAll <;> infer_instance
+
+theorem optAll_some {p : Bytes → Prop} {o : Option Bytes} {d : Bytes} (h : optAll p o) (e : o = some d) : p d := by
+  subst e; exact h
+
+/-- The logins a sub-record of update-user creates, renames to or deletes are legal file names:
+    the login field (105) always, the data field (101) when the record is a delete (one field).
+    (The data field of a rename names an EXISTING account, whose login is legal by the invariant.) -/
 def RecLegal (fs : List Field) : Prop :=
-  (∀ d, getField 101 fs = some d → d = [] ∨ LegalLogin (obfuscate d)) ∧
-  (∀ lg, getField 105 fs = some lg → LegalLogin (obfuscate lg)) ∧
-  (fs.length = 1 → ∀ d, getField 101 fs = some d → LegalLogin (obfuscate d))
+  optAll (fun lg => LegalLogin (obfuscate lg)) (getField 105 fs) ∧
+  (fs.length = 1 → optAll (fun d => LegalLogin (obfuscate d)) (getField 101 fs))
+
+instance (fs : List Field) : Decidable (RecLegal fs) := by unfold RecLegal; infer_instance
 
 def Op.Legal : Op → Prop
   | .newUser fs => LegalLogin (obfuscate (fieldData 105 fs))
   | .deleteUser fs => LegalLogin (obfuscate (fieldData 105 fs))
   | .updateUser recs => ∀ fs ∈ recs, RecLegal fs
   | _ => True
+
+instance (o : Op) : Decidable o.Legal := by
+  cases o <;> unfold Op.Legal <;> infer_instance
 
 -- ---------------------------------------------------------------- the invariant
 
@@ -442,14 +465,14 @@ theorem handleDeleteUser_inv (env : Env H) (fs : List Field) (st : State H) (h :
 
 theorem updateRec_inv (env : Env H) (fs : List Field) (st : State H) (h : Inv st) (hl : RecLegal fs) :
     Inv (updateRec env fs st).1 := by
-  obtain ⟨hd, hlg, hdel⟩ := hl
+  obtain ⟨hlg, hdel⟩ := hl
   unfold updateRec
   split
   · rename_i h1
     split
     · exact h
     · rename_i d hdd
-      have := delete_inv env (obfuscate d) st h (hdel h1 d hdd)
+      have := delete_inv env (obfuscate d) st h (optAll_some (p := fun d => LegalLogin (obfuscate d)) (hdel h1) hdd)
       split
       · rename_i st' heq; rw [heq] at this; exact this
       · exact h
@@ -457,7 +480,7 @@ theorem updateRec_inv (env : Env H) (fs : List Field) (st : State H) (h : Inv st
     split
     · exact h
     · rename_i lg hlg'
-      have hul := hlg lg hlg'
+      have hul : LegalLogin (obfuscate lg) := optAll_some (p := fun d => LegalLogin (obfuscate d)) hlg hlg'
       split
       · rename_i acc hacc
         obtain ⟨h1, h2, _⟩ := h.mem_ok _ _ hacc
